@@ -213,8 +213,13 @@ func (e encrypter) encrypt(data []byte) ([]byte, error) {
 	return ciphertext, nil
 }
 
+var ErrTokenMalformed = errors.New("malformed token")
+
 func (e encrypter) decrypt(data []byte) ([]byte, error) {
 	nonceSize := e.gcm.NonceSize()
+	if len(data) < nonceSize {
+		return nil, ErrTokenMalformed
+	}
 	nonce, ciphertext := data[:nonceSize], data[nonceSize:]
 	plaintext, err := e.gcm.Open(nil, nonce, ciphertext, nil)
 	if err != nil {
